@@ -25,6 +25,7 @@ import (
 	"sort"
 	"strings"
 	"sync"
+	"time"
 
 	"github.com/Dash-Industry-Forum/livesim2/cmd/livesim2/app"
 	"verifharness/lib"
@@ -323,6 +324,7 @@ func runC07(c *lib.Ctx) error {
 		return replayC07(c)
 	}
 	rb := startRaceBuild(c)
+	rj := startRaceJobs(c.Seed, c.Thorough(), rb)
 	burstRounds := 16
 	if c.Thorough() {
 		burstRounds = 60
@@ -333,7 +335,13 @@ func runC07(c *lib.Ctx) error {
 	if c.Thorough() {
 		nInst = 12
 	}
+	tPhase := time.Now()
+	phase := func(name string) {
+		c.Res.Notes = append(c.Res.Notes, fmt.Sprintf("phase %s: %.1fs", name, time.Since(tPhase).Seconds()))
+		tPhase = time.Now()
+	}
 	n, fails, err := runMix(c.Seed, nInst, c.Count)
+	phase("mix")
 	if err != nil {
 		return err
 	}
@@ -345,11 +353,14 @@ func runC07(c *lib.Ctx) error {
 		return err
 	}
 	n += nh
+	phase("histories")
 	nl, distinct, err := runLookup(c)
 	if err != nil {
 		return err
 	}
-	nr := racePart(c, rb)
+	phase("lookup")
+	nr := racePart(c, rj)
+	phase("race")
 	br := <-burstCh
 	if br.err != nil {
 		return br.err
@@ -436,7 +447,7 @@ func replayC07(c *lib.Ctx) error {
 		}
 	case "race":
 		rb := startRaceBuild(c)
-		racePart(c, rb)
+		racePart(c, startRaceJobs(c.Seed, c.Thorough(), rb))
 		for _, f := range c.Res.OracleFailures {
 			fmt.Printf("replay C07: %s: %s\n", f.Key, f.What)
 		}
